@@ -10,7 +10,6 @@
    it is written only by the hygienic reference expansion [hexpand_*] (the specification).
 
    Model = the code as it is, including what is not hygienic:
-     - conditions attached to a clause (`r(x, y) if y > 0`) are not visited by the renaming pass;
      - only identifiers that occur in a binding position of the expanded items are renamed;
      - head-position expansion does no renaming at all;
      - generated names are `__<x>_`, `__<x>_1`, `__<x>_2` ... (per-rule GenSym), which a user may write too;
@@ -187,14 +186,14 @@ Definition gs_next (g : gensym) (s : string) : string * gensym := (gname s (gs_c
 (* ------------------------------------------------------------------ renaming of macro-originated variables
    body_items_rename_macro_originated_vars(bis, macro_def, gensym) *)
 
-(* body_item_get_bound_vars: identifier arguments of clauses, patterns of let / if let / for; nothing for the
-   conditions attached to a clause, for negations, for invocations *)
+(* body_item_get_bound_vars: identifier arguments of clauses, patterns of let / if let / for — also of the conditions
+   attached to a clause (since fix 931a20f); nothing for negations, for invocations *)
 Definition bv_var (v : var) : list ident := match v with VId i => [i] | VPar _ => [] end.
 Definition bv_term (t : term) : list ident := match t with TV v => bv_var v | _ => [] end.
 Definition bv_cnd (c : cnd) : list ident := match c with CBind x _ _ => bv_var x | CIf _ _ => [] end.
 Fixpoint bv_item (it : item) : list ident :=
   match it with
-  | IClause _ args _ => flat_map bv_term args
+  | IClause _ args cs => flat_map bv_term args ++ flat_map bv_cnd cs
   | ICond c => bv_cnd c
   | IGen x _ _ => bv_var x
   | INeg _ _ => []
@@ -212,7 +211,8 @@ Definition ren (m : nat) (mp : list (string * string)) (i : ident) : ident :=
   if org_is m i then match sassoc mp (iname i) with Some s => set_name s i | None => i end else i.
 
 (* body_item_visit_bound_vars_mut followed by body_item_visit_exprs_free_vars_mut: an identifier argument of a
-   clause is visited by both (R applied twice); attached conditions by neither *)
+   clause is visited by both (R applied twice); the conditions attached to a clause are visited like stand-alone
+   conditions (since fix 931a20f: before it they were visited by neither pass) *)
 Definition ren_clause_arg (R : ident -> ident) (t : term) : term :=
   match t with
   | TV (VId i) => TV (VId (R (R i)))
@@ -222,7 +222,7 @@ Definition ren_clause_arg (R : ident -> ident) (t : term) : term :=
   end.
 Fixpoint ren_item (R : ident -> ident) (it : item) : item :=
   match it with
-  | IClause r args cs => IClause r (map (ren_clause_arg R) args) cs
+  | IClause r args cs => IClause r (map (ren_clause_arg R) args) (map (map_cnd R) cs)
   | ICond c => ICond (map_cnd R c)
   | IGen x g args => IGen (map_var R x) g (map (map_var R) args)
   | INeg r args => INeg r (map (map_term R) args)
@@ -450,30 +450,20 @@ Definition org_eqb (a b : origin) : bool :=
   match a, b with OCall, OCall => true | OMac m, OMac m' => Nat.eqb m m' | _, _ => false end.
 Definition wf_ident (o : origin) (i : ident) : bool := org_eqb (iorg i) o && Nat.eqb (isc i) 0 && user_name (iname i).
 
-Definition attached_cnd_free (it : item) : bool := match it with IClause _ _ (_ :: _) => false | _ => true end.
-Fixpoint no_attached (it : item) : bool :=
-  match it with
-  | IClause _ _ cs => match cs with [] => true | _ => false end
-  | IDisj alts => forallb (forallb no_attached) alts
-  | _ => true
-  end.
-
 Definition memn (n : nat) (l : list nat) : bool := existsb (Nat.eqb n) l.
 
 (* a macro definition:
    (1) its identifiers are tagged with the macro, unscoped, and not spelled like generated names;
-   (2) no condition is attached to a clause (`r(..) if ..`; write `r(..), if ..`);
-   (3) every identifier of the body occurs in a binding position of the body itself (it is a bound, "macro-local"
+   (2) every identifier of the body occurs in a binding position of the body itself (it is a bound, "macro-local"
        variable in the sense of MACROS.MD: argument of a clause, pattern of let / if let / for);
-   (4) it invokes only macros of smaller rank (no recursion). *)
+   (3) it invokes only macros of smaller rank (no recursion). *)
 Definition wf_def_ids (d : mdef) : bool := forallb (wf_ident (OMac (mname d))) (ids_items (mbody d)).
-Definition wf_def_noatt (d : mdef) : bool := forallb no_attached (mbody d).
 Definition wf_def_bound (d : mdef) : bool :=
   forallb (fun i => mem_str (iname i) (map iname (bv_items (mbody d)))) (ids_items (mbody d)).
 Definition wf_def_rank (rk : nat -> nat) (d : mdef) : bool :=
   forallb (fun m' => Nat.ltb (rk m') (rk (mname d))) (invs_items (mbody d)).
 Definition wf_def (rk : nat -> nat) (d : mdef) : bool :=
-  wf_def_ids d && wf_def_noatt d && wf_def_bound d && wf_def_rank rk d.
+  wf_def_ids d && wf_def_bound d && wf_def_rank rk d.
 
 (* macros usable in head position (HM): no identifiers of their own, invoke only such macros *)
 Definition wf_head_def (HM : list nat) (d : mdef) : bool :=
